@@ -18,8 +18,22 @@ def plan(costfn):
     return out
 
 
-def run(shard, tier, seed, prop, cores, halos, props=None, shrink_per_presig=3):
+def run(shard, tier, seed, prop, cores, halos, props=None, shrink_per_presig=3, child_value_none=False):
     """cores: list of iterables of histories (seed independent); halos: list of (profile, count, maxlen)"""
+    from .. import lib, hist
+    hist.CHILD_VALUE_NONE[0] = bool(child_value_none)
+    try:
+        res = _run(shard, tier, seed, prop, cores, halos, props, shrink_per_presig)
+    finally:
+        hist.CHILD_VALUE_NONE[0] = False
+    if child_value_none:
+        for v in res['violations']:
+            v['case']['child_value_none'] = True
+            v['sig']['children'] = 'value_=None'
+    return res
+
+
+def _run(shard, tier, seed, prop, cores, halos, props=None, shrink_per_presig=3):
     from .. import lib, hist
     t = shard['type']
     part, parts = shard.get('part', 0), shard.get('parts', 1)
@@ -50,7 +64,9 @@ def run(shard, tier, seed, prop, cores, halos, props=None, shrink_per_presig=3):
 def replay_case(rp, prop, props=None):
     from .. import lib, hist
     c = rp['case']
+    hist.CHILD_VALUE_NONE[0] = bool(c.get('child_value_none'))
     vs, r = hist.decide(lib.TYPES[c['type']], c['type'], c['hist'], tuple(props or (prop,)))
+    hist.CHILD_VALUE_NONE[0] = False
     mine = [(p, k, d) for p, k, d in vs if p == prop]
     want = rp.get('sig', {}).get('kind')
     return {'violated': any(k == want for _, k, _ in mine) if want else bool(mine), 'violations': mine,
